@@ -517,8 +517,11 @@ def c19_char_cfg_wiring(run):
     run.function_under_contract("genlm.grammar.lark_interface.LarkStuff._char_cfg", source.sha(fn))
     n_wire, n_disj = "C19/lark_interface.LarkStuff._char_cfg/ignore-wiring", "C19/lark_interface.LarkStuff._char_cfg/disjoint-nonterminals"
     problems, disj_problems = [], []
-    for with_ignore in (False, True):
-        for to_bytes in (False, True):
+    # terminal namings: neutral names, and names that look like "<terminal>_<state>" / "<terminal><state>" / a tuple's repr / the helper
+    # prefix - a state key that is not structurally different from a symbol name collides with one of them
+    namings = [("A", "WS", "NL"), ("A", "A_0", "A_1"), ("A", "A0", "A1"), ("A", "('A', 0)", "tmp"), ("A", "A 0", "tmp_A")]
+    for (tA, tWS, tNL), with_ignore, to_bytes in [(nm_, wi_, tb_) for nm_ in namings for wi_ in (False, True) for tb_ in (False, True)]:
+        if True:
             adds = []
             calls = []
 
@@ -565,14 +568,14 @@ def c19_char_cfg_wiring(run):
             from fractions import Fraction
             ids = {}
             arsenal = Bag(Integerizer=I.Native("Integerizer", lambda i2, a, k: I.Native("intern", lambda i3, a3, k3: ids.setdefault(a3[0], len(ids)))))
-            terminals = [Bag(name="A", pattern=Bag(to_regexp=I.Native("to_regexp", lambda *x: "a"))),
-                         Bag(name="WS", pattern=Bag(to_regexp=I.Native("to_regexp", lambda *x: " "))),
-                         Bag(name="NL", pattern=Bag(to_regexp=I.Native("to_regexp", lambda *x: "n")))]
-            rules0 = [Bag(w=1, head="start", body=("A", "A"))]
+            terminals = [Bag(name=tA, pattern=Bag(to_regexp=I.Native("to_regexp", lambda *x: "a"))),
+                         Bag(name=tWS, pattern=Bag(to_regexp=I.Native("to_regexp", lambda *x: " "))),
+                         Bag(name=tNL, pattern=Bag(to_regexp=I.Native("to_regexp", lambda *x: "n")))]
+            rules0 = [Bag(w=1, head="start", body=(tA, tA))]
 
             class CfgTok:
                 S = "start"
-                V = {"A", "WS", "NL"}
+                V = {tA, tWS, tNL}
 
                 def __pyvc_getattr__(self, interp, nm, node):
                     if nm in ("S", "V"):
@@ -587,7 +590,7 @@ def c19_char_cfg_wiring(run):
                     return list(self.f["rules"])
 
             def regex2fsa(i2, a, k):
-                return Fsa({"a": "A", " ": "WS", "n": "NL"}[a[0]], k["name"])
+                return Fsa({"a": tA, " ": tWS, "n": tNL}[a[0]], k["name"])
 
             foo_holder = {}
 
@@ -595,7 +598,7 @@ def c19_char_cfg_wiring(run):
                 foo_holder["foo"] = Foo(k.get("S"))
                 return foo_holder["foo"]
 
-            selfobj = Bag(convert=I.Native("convert", lambda i2, a, k: CfgTok()), ignore_terms=(["WS", "NL"] if with_ignore else []), terminals=terminals)   # two ignored terminals: alternatives, not a sequence
+            selfobj = Bag(convert=I.Native("convert", lambda i2, a, k: CfgTok()), ignore_terms=([tWS, tNL] if with_ignore else []), terminals=terminals)   # two ignored terminals: alternatives, not a sequence
             g = {"arsenal": arsenal, "CFG": I.Native("CFG", CFGc), "Float": "Float", "interegular_to_wfsa": I.Native("i2w", regex2fsa),
                  "NotImplementedError": "NotImplementedError"}
             it = I.Interp(I.Path([]))
@@ -618,13 +621,13 @@ def c19_char_cfg_wiring(run):
                 run.obligation(n_wire, "out-of-subset", role=AUX, detail=str(e))
                 return
             N = lambda x: f"N{ids[x]}"      # noqa: E731
-            want_top = [(1, N("start"), N("A"), N("A"))]
+            want_top = [(1, N("start"), N(tA), N(tA))]
             have = [tuple(a) for a in adds]
             if not all(any(h == w for h in have) for w in want_top):
                 problems.append(f"ignore={with_ignore}: renamed rule grammar missing")
             if with_ignore:
                 ign = N("$IGNORE")
-                need = [(1, ign), (1, ign, N("WS")), (1, ign, N("NL")), (1, N("A"), ign, N(("tmp", "A")))]
+                need = [(1, ign), (1, ign, N(tWS)), (1, ign, N(tNL)), (1, N(tA), ign, N(("tmp", tA)))]
                 for w in need:
                     if w not in have:
                         problems.append(f"ignore wiring: missing rule {w}")
@@ -632,11 +635,11 @@ def c19_char_cfg_wiring(run):
                 if len(ign_rules) != 3:
                     problems.append(f"ignore wiring: $IGNORE has the rules {ign_rules}, expected exactly eps | WS | NL")
                 starts = {c[0]: c[1] for c in calls}
-                if starts.get("A") != N(("tmp", "A")) or starts.get("WS") != N("WS") or starts.get("NL") != N("NL"):
+                if starts.get(tA) != N(("tmp", tA)) or starts.get(tWS) != N(tWS) or starts.get(tNL) != N(tNL):
                     problems.append(f"ignore wiring: to_cfg start symbols {starts}")
             else:
                 starts = {c[0]: c[1] for c in calls}
-                if starts != {"A": N("A"), "WS": N("WS"), "NL": N("NL")}:
+                if starts != {tA: N(tA), tWS: N(tWS), tNL: N(tNL)}:
                     problems.append(f"to_cfg start symbols {starts}")
             # disjointness: state names of different terminals never coincide, nor with rule nonterminals, nor with terminals
             pools = [set(c[4]) for c in calls]
@@ -644,13 +647,19 @@ def c19_char_cfg_wiring(run):
                 for y_ in range(x_ + 1, len(pools)):
                     if pools[x_] & pools[y_]:
                         disj_problems.append(f"terminals share automaton nonterminals {pools[x_] & pools[y_]} (bytes={to_bytes})")
+            # ... nor with the nonterminals of the rule grammar, the terminals' own start symbols, $IGNORE and the tmp helpers
+            outer = {f"N{v}" for k_, v in ids.items() if k_ in ("start", "$IGNORE", tA, tWS, tNL)} | {c[1] for c in calls}
+            for c in calls:
+                if set(c[4]) & outer:
+                    disj_problems.append(f"automaton states of terminal {c[0]!r} are named like grammar symbols {sorted(set(c[4]) & outer)} "
+                                         f"(terminals {tA!r}, {tWS!r}, {tNL!r}; bytes={to_bytes})")
             foo = foo_holder["foo"]
             if foo.N & foo.V:
                 disj_problems.append(f"nonterminal/terminal name clash {foo.N & foo.V}")
     if problems:
         run.obligation(n_wire, "refuted", role=AUX, backend="pyvc", detail=problems[0], replay=dict(replayed=False, problems=problems), signature="_char_cfg:wiring")
     else:
-        run.obligation(n_wire, "proved", role=AUX, backend="pyvc", detail="rule grammar renamed through f; $IGNORE -> eps | ignored terminals; tok -> $IGNORE tmp with tmp the start of the terminal's own grammar; 4 configurations")
+        run.obligation(n_wire, "proved", role=AUX, backend="pyvc", detail="rule grammar renamed through f; $IGNORE -> eps | ignored terminals; tok -> $IGNORE tmp with tmp the start of the terminal's own grammar; 4 configurations x 5 terminal namings")
     if disj_problems:
         run.obligation(n_disj, "refuted", backend="pyvc", detail=disj_problems[0], replay=dict(replayed=False, problems=disj_problems), signature="_char_cfg:disjoint")
     else:
